@@ -395,9 +395,22 @@ class Gen:
 def known_finding_reproducers(rng):
     """every listed known finding is exercised on every run (KF-C05-1 ICMP, KF-C05-2 ICMPv6)"""
     eth = f"eth {hx(mac(rng))} {hx(mac(rng))} 0"
+    ip4 = f"ip 0 1 0 0 64 0 {hx(addr4(rng))} {hx(addr4(rng))} -"
+    ip6 = f"ip6 0 0 64 0 {hx(addr6(rng))} {hx(addr6(rng))} -"
     return [
-        [eth, f"ip 0 1 0 0 64 0 {hx(addr4(rng))} {hx(addr4(rng))} -", "icmp 11 0 0 0 0 0 0 1 -", "raw " + hx(rbytes(rng, 5))],
-        [eth, f"ip6 0 0 64 0 {hx(addr6(rng))} {hx(addr6(rng))} -", "icmp6 3 0 0 0 1 -", "raw " + hx(rbytes(rng, 9))],
+        [eth, ip4, "icmp 11 0 0 0 0 0 0 1 -", "raw " + hx(rbytes(rng, 5))],                      # KF-C05-1 (known)
+        [eth, ip6, "icmp6 3 0 0 0 1 -", "raw " + hx(rbytes(rng, 9))],                              # KF-C05-2 (known)
+        # regression cases of the fixed findings (a reintroduced defect is reported deterministically)
+        [eth, f"ip6 0 0 64 0 {hx(addr6(rng))} {hx(addr6(rng))} 60.{rbytes(rng, 7).hex()},0.{rbytes(rng, 15).hex()}",
+         "udp 1 2", "raw 00"],                                                                       # KF-C05-3
+        [eth, "pppoe 0 7 0 -", "raw 0021" + rbytes(rng, 9).hex()],                                  # KF-C05-4
+        [eth, "dot1q 0 0 5 0 0", "pppoe 0 7 0 -", "raw 0021" + rbytes(rng, 40).hex()],              # KF-C05-5
+        ["sll 0 1 6 0011223344550000 0", "pppoe 0 7 0 -", "raw 0021" + rbytes(rng, 4).hex()],       # KF-C05-5
+        [eth, ip6, "icmp6 3 0 0 0 1 -", "raw " + hx(rbytes(rng, 16))],                             # KF-C05-6
+        [eth, ip6, "icmp6 1 0 0 0 1 -", "raw " + hx(rbytes(rng, 16))],                             # KF-C05-7
+        [eth, ip6, "icmp6 1 0 0 0 0 1.1." + rbytes(rng, 4).hex(), "raw " + hx(rbytes(rng, 16))],   # KF-C05-7 with extension
+        [eth, ip4, f"icmp 13 0 1 2 {rng.randrange(1, 2**32)} {rng.randrange(2**32)} {rng.randrange(2**32)} 0 -"],  # KF-C05-8
+        [eth, ip4, "tcp 1 2 3 4 16 5 0 " + ",".join(["8.0102030405060708"] * 4 + ["3.0102"]), "raw aabb"],       # KF-C05-9
     ]
 
 
@@ -537,26 +550,26 @@ def run(chk):
     quick = chk.tier == "quick"
     stats = corr.collections.Counter()
     # 1. checksum helpers, CRC, pseudo headers: implementation vs model vs RFC definitions
-    ops = gen_basic_ops(rng, 8000 if quick else 40000, 9000 if quick else 65535)
+    ops = gen_basic_ops(rng, 8000 if quick else 100000, 9000 if quick else 65535)
     if not quick:
         ops += ["sum " + hx(bytes([0xff]) * n) for n in (65534, 65535, 131070, 131071)]
-    stats += corr.correspond(chk, AREA, exe, ops, case_start=CASE_START, classify=classify, sig_of=sig_of,
+    stats += corr.correspond(chk, AREA, exe, ops, case_start=CASE_START, classify=classify, sig_of=sig_of, max_reports=12,
                              nontrivial=nontrivial)
     # 2. API-built packets: dissector oracle + libpcap predicates (+ model for the modelled stacks)
-    pops = gen_packet_ops(rng, 8000 if quick else 40000, 1400 if quick else 4000, chk.tier)
+    pops = gen_packet_ops(rng, 8000 if quick else 120000, 1400 if quick else 4000, chk.tier)
     if not quick:
-        pops += gen_packet_ops(rng, 60, 65000, chk.tier)
+        pops += gen_packet_ops(rng, 200, 65000, chk.tier)
     modelled = [o for o in pops if o.startswith("pkt ") and is_modelled(o)]
     others = [o for o in pops if not (o.startswith("pkt ") and is_modelled(o))]
-    stats += corr.correspond(chk, AREA, exe, modelled, case_start=CASE_START, classify=classify, sig_of=sig_of,
+    stats += corr.correspond(chk, AREA, exe, modelled, case_start=CASE_START, classify=classify, sig_of=sig_of, max_reports=12,
                              nontrivial=nontrivial)
-    stats += corr.correspond(chk, AREA, exe, others, case_start=CASE_START, classify=classify, sig_of=sig_of,
+    stats += corr.correspond(chk, AREA, exe, others, case_start=CASE_START, classify=classify, sig_of=sig_of, max_reports=12,
                              model=False, nontrivial=nontrivial)
     # 3. parsed packets: serialisations (intact, with damaged checksums, with bit flips) parsed and serialised again
     pk = [o for o in pops if o.startswith("pkt ")]
     impl, _ = core.run_harness_lines(exe, (), pk, CASE_START)
-    rops = reser_ops(rng, pk, impl, 2500 if quick else 10000)
-    stats += corr.correspond(chk, AREA, exe, rops, case_start=CASE_START, classify=classify, sig_of=sig_of,
+    rops = reser_ops(rng, pk, impl, 2500 if quick else 30000)
+    stats += corr.correspond(chk, AREA, exe, rops, case_start=CASE_START, classify=classify, sig_of=sig_of, max_reports=12,
                              model=False, nontrivial=nontrivial)
     for p in problems:
         found = stats.get("spec", 0) + stats.get("fault", 0)
